@@ -16,7 +16,7 @@ Phases (all bounded by counts, seeded from ctx.seed):
 Sizes: quick 16 x 15 000 new inputs (+ seed loading, about 300 000 executions); thorough 16 x 250 000 new inputs.
 Environment overrides for experiments: C12_NEW_PER_JOB, C12_REPLAY_CAP.
 """
-import os, re, glob, hashlib, shutil, struct, time
+import copy, os, re, glob, hashlib, shutil, struct, time
 from vlib import core
 
 LEVEL = 'exploration'
@@ -174,6 +174,33 @@ def build_seeds(ctx, d):
         add(E['hashalg_name'] | ((i & 15) << 4), s.encode('latin-1'), 'hash%d' % i)
     for i, s in enumerate(TEXT_PUB):
         add(E['pubstring'] | ((i & 15) << 4), s.encode('latin-1'), 'pub%d' % i)
+    # reference-built replies for the client round trip (PDU entries, variant bit 1): authentic under key "anon"
+    try:
+        import random as _random
+        from vlib import refserver as S, refksi as R, gen as G
+        rr = _random.Random(12)
+        zero = bytes([1]) + bytes(32)
+        k = 0
+        for npar in (0, 1, 4, 9):
+            conf = S.wrap_v2(S.AGGR_RESP_V2, [S.conf_elem('aggr', 2, max_level=17, aggr_period=400, max_req=4, parents=['ksi+tcp://parent-%d.example.org:3332/%s' % (j, 'p' * 30) for j in range(npar)])], b'anon', 1, b'anon')
+            for mm in (0, 1):
+                add(E['aggr_pdu'] | 0x80 | 0x20 | (mm << 4), conf, 'ref-aggr-conf-only-%d' % npar)
+            econf = S.wrap_v2(S.EXT_RESP_V2, [S.conf_elem('ext', 2, max_req=4, parents=['ksi+tcp://parent-%d.example.org:3331/%s' % (j, 'p' * 30) for j in range(npar)], cal_first=1136073600, cal_last=1700000000)], b'anon', 1, b'anon')
+            for mm in (0, 1):
+                add(E['ext_pdu'] | 0x80 | 0x20 | (mm << 4), econf, 'ref-ext-conf-only-%d' % npar)
+        for rid in (1, 2, 3, 4):
+            for lvl in (0, 1, 2):
+                sg = G.gen_signature(rr, first_corr=lvl, with_cal=True, anchor='auth', rfc=False, doc_imprint=zero, time=1500000000 + rid, nchains=2)
+                rs = copy.deepcopy(sg)
+                body = S.aggr_response(dict(req_id=rid), rs, b'anon', version=2, alg=1, req_id=rid, login=b'anon')
+                add(E['aggr_pdu'] | 0x80 | ((k & 3) << 4), body, 'ref-aggr-reply-id%d-l%d' % (rid, lvl))
+                k += 1
+        for st in (0x101, 0x300):
+            add(E['aggr_pdu'] | 0x80 | 0x20, S.error_pdu('aggr', 2, b'anon', status=st, alg=1, login=b'anon'), 'ref-aggr-error-%x' % st)
+            add(E['ext_pdu'] | 0x80 | 0x20, S.error_pdu('ext', 2, b'anon', status=st, alg=1, login=b'anon'), 'ref-ext-error-%x' % st)
+    except Exception as ex:      # the seeds are an aid to the fuzzer, not a precondition
+        ctx.counters['reference_reply_seeds_failed'] = 1
+        ctx.extra['reference_reply_seeds_error'] = repr(ex)[:300]
     # committed seed / regression corpus (already selector-prefixed)
     for f in sorted(glob.glob(os.path.join(core.VERIF, 'corpus', 'c12', '*.bin'))):
         data = open(f, 'rb').read()
